@@ -54,6 +54,9 @@ type graph struct {
 	byDig map[string]string // digest -> node name
 }
 
+func (o *object) alg() string { a, _, _ := strings.Cut(o.dig, ":"); return a }
+func (o *object) hex() string { _, h, _ := strings.Cut(o.dig, ":"); return h }
+
 func (g *graph) nameOf(dig string) string {
 	if n, ok := g.byDig[dig]; ok {
 		return n
@@ -96,6 +99,11 @@ func buildGraph(gname string, nodes map[string]nodeRec) (*graph, error) {
 				o.raw = []byte{}
 			case "emptyjson":
 				o.raw = []byte("{}")
+			case "sha512":
+				if name != "l5" {
+					return nil, fmt.Errorf("graph %s: node %q: the catalogue addresses only node l5 by sha512", gname, name)
+				}
+				o.raw = []byte(fmt.Sprintf("blob %s/%s| addressed by sha512 %s", gname, name, strings.Repeat("z", 200)))
 			case "cfg":
 				o.raw, _ = json.Marshal(map[string]any{
 					"architecture": "amd64", "os": "linux",
@@ -136,7 +144,7 @@ func buildGraph(gname string, nodes map[string]nodeRec) (*graph, error) {
 				}
 				switch k.T {
 				case "ext":
-					dsc["urls"] = []string{"https://ext.test/foreign/" + strings.TrimPrefix(ko.dig, "sha256:")}
+					dsc["urls"] = []string{"https://ext.test/foreign/" + ko.hex()}
 				case "inl":
 					dsc["data"] = ko.raw // base64 by encoding/json
 				}
@@ -187,6 +195,9 @@ func buildGraph(gname string, nodes map[string]nodeRec) (*graph, error) {
 			return nil, fmt.Errorf("graph %s: node %q has unknown kind %q", gname, name, n.K)
 		}
 		o.dig = "sha256:" + sha256hex(o.raw)
+		if n.K == "blob" && n.A == "sha512" {
+			o.dig = "sha512:" + sha512hex(o.raw)
+		}
 		g.objs[name] = o
 		g.order = append(g.order, name)
 		if other, dup := g.byDig[o.dig]; dup && other != name {
@@ -218,13 +229,16 @@ func sortStrings(s []string) {
 
 // writeLayout writes the graph as an OCI image layout directory with plain file operations.
 func writeLayout(dir string, g *graph, roots []rootRec) error {
-	bd := filepath.Join(dir, "blobs", "sha256")
-	if err := os.MkdirAll(bd, 0o755); err != nil {
+	if err := os.MkdirAll(filepath.Join(dir, "blobs", "sha256"), 0o755); err != nil {
 		return err
 	}
 	for _, n := range g.order {
 		o := g.objs[n]
-		if err := os.WriteFile(filepath.Join(bd, strings.TrimPrefix(o.dig, "sha256:")), o.raw, 0o644); err != nil {
+		bd := filepath.Join(dir, "blobs", o.alg())
+		if err := os.MkdirAll(bd, 0o755); err != nil {
+			return err
+		}
+		if err := os.WriteFile(filepath.Join(bd, o.hex()), o.raw, 0o644); err != nil {
 			return err
 		}
 	}
